@@ -146,6 +146,8 @@ def random_problem(r: random.Random, cap: int = 600, flavour: str | None = None)
     for _ in range(200):
         if flavour == "circuit":
             P = _circuit_problem(r)
+        elif flavour == "triple":
+            P = _triple_problem(r)
         else:
             nd = r.randint(1, 5) if flavour != "bool" else r.randint(2, 6)
             doms = []
@@ -176,6 +178,25 @@ def random_problem(r: random.Random, cap: int = 600, flavour: str | None = None)
         if P["props"] and box_size(P["doms"]) <= cap:
             return P
     raise RuntimeError("generator failed")
+
+
+def _triple_problem(r):
+    """3-4 variables on domains of 3-4 values, 1-2 constraints: deep enough for two nested three-way splits."""
+    nd = r.choice([3, 3, 4])
+    doms = []
+    for _ in range(nd):
+        a = r.choice([-2, -1, 0, 0, 1])
+        doms.append([a, a + r.choice([2, 2, 3])])
+    P = {"doms": doms, "vidx": list(range(nd)), "voff": [0] * nd, "props": []}
+    algs = ["exactly_eq", "count_eq", "affine_leq", "affine_geq", "affine_eq", "alldifferent", "max_leq", "min_geq",
+            "max_eq", "min_eq", "lexicographic_leq", "element_lic", "element_liv", "relation", "gcc", "element_iv"]
+    for _ in range(r.choice([1, 1, 2])):
+        for _try in range(10):
+            c = _mk_constraint(r, P, r.choice(algs))
+            if c:
+                P["props"].append(c)
+                break
+    return P
 
 
 def _circuit_problem(r):
